@@ -28,15 +28,31 @@ def available():
 
 
 def campaign(only, runs, seed, max_len=300):
-    """-> dict(status, counts, finding?)"""
+    """Two libFuzzer runs - 2/3 of the budget from a few small valid bodies, 1/3 from an empty corpus (the starting
+    corpus changes what a fuzzer finds) -> dict(status, counts, finding?)"""
     if not available():
         return {"status": "skipped: atheris is not installed (MANIFEST.setup_cmd installs it into .deps from the offline wheelhouse)"}
+    total = {"status": "", "runs": runs, "counts": {}, "parts": {}}
+    for part, n in (("seeded-corpus", runs - runs // 3), ("empty-corpus", runs // 3)):
+        res = _one(only, n, seed, max_len, part == "seeded-corpus")
+        total["parts"][part] = {"status": res["status"], "runs": n}
+        total["status"] = (total["status"] + "; " if total["status"] else "") + f"{part}: {res['status']}"
+        for k, v in res.get("counts", {}).items():
+            if isinstance(v, (int, float)):
+                total["counts"][k] = total["counts"].get(k, 0) + v
+        if "finding" in res and "finding" not in total:
+            total["finding"] = res["finding"]
+    return total
+
+
+def _one(only, runs, seed, max_len, seeded):
     tmp = Path(tempfile.mkdtemp(prefix="verif_fuzz_"))
     try:
         corpus, out = tmp / "corpus", tmp / "out"
         corpus.mkdir()
-        for i, s in enumerate(SEEDS):
-            (corpus / f"seed{i}").write_bytes(s.encode())
+        if seeded:
+            for i, s in enumerate(SEEDS):
+                (corpus / f"seed{i}").write_bytes(s.encode())
         cmd = [sys.executable, str(H.VERIF / "fuzz" / "fuzz_body.py"), str(out), str(corpus), f"-runs={runs}", f"-seed={seed % (2**31 - 1) + 1}", f"-max_len={max_len}", f"-dict={H.VERIF / 'fuzz' / 'ofx.dict'}"]
         env = dict(os.environ, VERIF_FUZZ_ONLY=only)
         p = subprocess.run(cmd, env=env, capture_output=True, text=True, timeout=3600)
